@@ -101,3 +101,6 @@ func (w *World) NewEpochHooks() {
 	w.Cache.ResetCache()
 	w.Svc.ResetTokenCheckCache()
 }
+
+// SetInContainer tells whether the local node belongs to the requested containers (single-worker worlds only).
+func (w *World) SetInContainer(v bool) { w.cfg.InContainer = v }
